@@ -487,7 +487,8 @@ def tree_hash():
     (tracked or not), the lock file, the harness sources and this driver."""
     hsh = hashlib.sha256()
     roots = [os.path.join(REPO, "vhost"), os.path.join(REPO, "vhost-user-backend"), HARNESS_DIR]
-    files = [os.path.join(REPO, "Cargo.toml"), os.path.join(REPO, "Cargo.lock"), os.path.abspath(__file__)]
+    files = [os.path.join(REPO, "Cargo.toml"), os.path.join(REPO, "Cargo.lock"), os.path.abspath(__file__),
+             os.path.join(WORK, "uapi_table.rs")]
     for root in roots:
         for dp, dn, fn in os.walk(root):
             dn[:] = sorted(d for d in dn if d not in ("target", ".git"))
@@ -525,9 +526,23 @@ def load_known():
     return []
 
 
+def gen_uapi():
+    """C19 oracle: request numbers and struct layouts from the installed <linux/vhost.h>, regenerated each run."""
+    os.makedirs(WORK, exist_ok=True)
+    exe = os.path.join(WORK, "uapi_gen")
+    p = subprocess.run(["gcc", "-O0", "-o", exe, os.path.join(VERIF, "uapi", "gen.c")], capture_output=True, text=True)
+    if p.returncode != 0:
+        raise SystemExit("uapi/gen.c does not compile:\n" + p.stderr)
+    out = subprocess.run([exe], capture_output=True, text=True).stdout
+    tgt = os.path.join(WORK, "uapi_table.rs")
+    if not os.path.exists(tgt) or open(tgt).read() != out:
+        open(tgt, "w").write(out)
+
+
 def setup(nslots):
     """Build dependencies once (slot 0), then clone the target dir for the other slots."""
     os.makedirs(os.path.join(WORK, "logs"), exist_ok=True)
+    gen_uapi()
     for pkg, probe in (("vhost", "vhost_user::message::verif::c20_memory"), ("vhost-user-backend", None)):
         cmd = ["cargo", "kani", "-p", pkg, "--features", PKG_FEATURES[pkg], "--target-dir", slot_dir(0), "-Z", "stubbing",
                "--only-codegen"]
@@ -567,6 +582,7 @@ def main():
         ap.error("property id required")
     prop = a.prop
     os.makedirs(os.path.join(WORK, "logs"), exist_ok=True)
+    gen_uapi()
     hs = [h for h in all_h if prop in h["props"]
           and TIERS["thorough" if prop in h["thorough_for"] else h["tier"]] <= TIERS[a.tier]]
     if a.harness:
